@@ -1,6 +1,7 @@
 package props
 
 import (
+	"bytes"
 	"fmt"
 	"strings"
 	"testing"
@@ -240,4 +241,176 @@ func TestC07Random(t *testing.T) {
 			violation(rt, "C07", "c07", c, msg)
 		}
 	})
+}
+
+// ---- wide nodes and big inputs ----------------------------------------------------------------------------------------
+
+// c07Wide: one root with W children (every third one with a grandchild), one hostile name among them.
+type c07Wide struct {
+	W       int    `json:"w"`
+	At      int    `json:"at"`   // index of the child that carries (or whose grandchild carries) the hostile name
+	Deep    bool   `json:"deep"` // the hostile name is the grandchild
+	Hostile string `json:"hostile"`
+	Entry   string `json:"entry"`
+	Massive bool   `json:"massive,omitempty"`
+	DryRun  bool   `json:"dryRun,omitempty"`
+	Roots   int    `json:"roots,omitempty"` // further benign roots before and after (md entry)
+}
+
+func init() { registerReplay("c07w", c07WideCheck) }
+
+func (c c07Wide) forest() model.Forest {
+	r := &model.T{Name: "wide"}
+	for i := 0; i < c.W; i++ {
+		k := &model.T{Name: fmt.Sprintf("k%04d", i)}
+		if i%3 == 0 || (i == c.At && c.Deep) {
+			k.Kids = []*model.T{{Name: "g"}}
+		}
+		if i == c.At {
+			if c.Deep {
+				k.Kids[0].Name = c.Hostile
+			} else {
+				k.Name = c.Hostile
+			}
+		}
+		r.Kids = append(r.Kids, k)
+	}
+	f := model.Forest{r}
+	if c.Entry == "md" {
+		var pre, post model.Forest
+		for i := 0; i < c.Roots; i++ {
+			pre = append(pre, &model.T{Name: fmt.Sprintf("pre%d", i), Kids: []*model.T{{Name: "x"}}})
+			post = append(post, &model.T{Name: fmt.Sprintf("post%d", i), Kids: []*model.T{{Name: "x"}}})
+		}
+		f = append(append(pre, r), post...)
+	}
+	return f
+}
+
+func c07WideCheck(c c07Wide) string {
+	msg := c07Check(c07Case{Forest: c.forest(), Entry: c.Entry, DryRun: c.DryRun, Massive: c.Massive})
+	if msg == "" {
+		return ""
+	}
+	if i := strings.Index(msg, "\n"); i >= 0 {
+		msg = msg[i+1:] // the forest is described by the parameters
+	}
+	return fmt.Sprintf("root with %d children, hostile name %q at child %d (grandchild: %v), entry=%s massive=%v dryRun=%v roots around=%d\n%s", c.W, c.Hostile, c.At, c.Deep, c.Entry, c.Massive, c.DryRun, c.Roots, truncate(msg, 1500))
+}
+
+func TestC07Wide(t *testing.T) {
+	col := coll("C07", "wide")
+	col.Rule = "rapid: one root with W direct children (W around powers of two up to 4100; every third child has a grandchild) and ONE hostile name at a drawn child or grandchild x {md with 0..3 benign roots around, root} x {simple, massive} x {dry-run, real}; oracle as in the random part; non-trivial = always (W >= 200)"
+	rapid.Check(t, func(rt *rapid.T) {
+		ws := []int{200, 255, 256, 257, 511, 512, 513, 700, 1023, 1024, 1025}
+		if thorough() {
+			ws = append(ws, 1500, 2047, 2048, 2049, 4096, 4100)
+		}
+		c := c07Wide{W: rapid.SampledFrom(ws).Draw(rt, "w"), Deep: rapid.Bool().Draw(rt, "deep"), Entry: rapid.SampledFrom([]string{"md", "root"}).Draw(rt, "entry"),
+			Massive: rapid.Bool().Draw(rt, "massive"), DryRun: rapid.IntRange(0, 3).Draw(rt, "dry") == 0}
+		c.At = rapid.IntRange(0, c.W-1).Draw(rt, "at")
+		c.Hostile = rapid.SampledFrom([]string{"..", "../../escaped", ".", "a/../../../x", "/abs"}).Draw(rt, "hostile")
+		if c.Entry == "md" {
+			c.Roots = rapid.IntRange(0, 3).Draw(rt, "roots")
+		}
+		quarter := "q" + fmt.Sprint(4*c.At/c.W)
+		col.eval(true, hash64(fmt.Sprint(c)), "entry:"+c.Entry, fmt.Sprintf("massive:%v", c.Massive), fmt.Sprintf("w>=512:%v", c.W >= 512), "hostile-in-"+quarter)
+		col.sample(func() any { return c })
+		if msg := c07WideCheck(c); msg != "" {
+			violation(rt, "C07", "c07w", c, msg)
+		}
+	})
+}
+
+// c07Big: a Markdown document of a given size handed over as a reader whose size can be asked for.
+type c07Big struct {
+	Bytes   int    `json:"bytes"`
+	Reader  int    `json:"reader"` // ops IOKind: 0 plain, 3 *bytes.Reader, 4 regular file
+	At      int    `json:"at"`     // per mille position of the hostile name
+	Hostile string `json:"hostile"`
+	Massive bool   `json:"massive,omitempty"`
+	Alias   bool   `json:"alias,omitempty"`
+}
+
+func init() { registerReplay("c07b", c07BigCheck) }
+
+func (c c07Big) doc() []byte {
+	var b bytes.Buffer
+	pad := strings.Repeat("n", 180)
+	hostileAt := c.Bytes / 1000 * c.At
+	done := false
+	for i := 0; b.Len() < c.Bytes; i++ {
+		fmt.Fprintf(&b, "- r%06d-%s\n", i, pad)
+		if !done && b.Len() >= hostileAt {
+			fmt.Fprintf(&b, "  - %s\n", c.Hostile)
+			done = true
+		} else {
+			fmt.Fprintf(&b, "  - kid\n")
+		}
+	}
+	return b.Bytes()
+}
+
+func c07BigCheck(c c07Big) string {
+	cs := ops.NewCase("mkdir", "md")
+	if c.Alias {
+		cs.Entry = "mdalias"
+	}
+	cs.Doc = c.doc()
+	cs.Opts.Massive = c.Massive
+	cs.Faults.IOKind = c.Reader
+	cs.FS = &ops.FSSpec{}
+	res := pool("chroot").Run(&cs)
+	head := fmt.Sprintf("Mkdir from a %d-byte document (reader kind %d, massive=%v, alias=%v) with %q as a child name at %d/1000\n", len(cs.Doc), c.Reader, c.Massive, c.Alias, c.Hostile, c.At)
+	if res.Infra != "" {
+		return ""
+	}
+	if cr := res.Crashed(); cr != "" {
+		return head + cr
+	}
+	created, removed, changed := ops.Diff(res.Before, res.After)
+	for _, p := range append(append(append([]string{}, created...), removed...), changed...) {
+		i := strings.Index(p, "/")
+		if i < 0 || !(p[i+1:] == ops.JailTarget || strings.HasPrefix(p[i+1:], ops.JailTarget+"/")) {
+			return fmt.Sprintf("%san entry outside the target directory was touched: %q", head, p)
+		}
+	}
+	if res.Err.Nil {
+		return head + "the call succeeded"
+	}
+	if !c.Massive && len(created) != 0 {
+		return fmt.Sprintf("%sthe tree was rejected (%s) but %d entries had already been created (first: %q)", head, res.Err.Text, len(created), created[0])
+	}
+	return ""
+}
+
+func TestC07BigInput(t *testing.T) {
+	col := coll("C07", "big-input")
+	sizes := []int{70_000, 1<<20 + 1}
+	if thorough() {
+		sizes = []int{70_000, 1<<20 + 1, 4<<20 + 1, 9 << 20}
+	}
+	col.Rule = fmt.Sprintf("documents of %v bytes (thousands of valid roots, one hostile child name early / in the middle / at the very end) x reader kind (opaque reader, *bytes.Reader, regular file) x {simple, massive} x {MkdirFromMarkdown, Mkdir}; without the massive option nothing at all may be created", sizes)
+	n := 0
+	for _, sz := range sizes {
+		for _, rd := range []int{0, 3, 4} {
+			for _, at := range []int{1, 500, 999} {
+				for _, massive := range []bool{false, true} {
+					n++
+					if n%nshards != shard {
+						continue
+					}
+					if !thorough() && sz > 100_000 && (at == 1 || massive) {
+						continue
+					}
+					c := c07Big{Bytes: sz, Reader: rd, At: at, Hostile: []string{"../../escaped", "..", "a/b"}[n%3], Massive: massive, Alias: n%5 == 0}
+					col.eval(true, hash64(fmt.Sprint(c)), fmt.Sprintf("size:%d", sz), fmt.Sprintf("reader:%d", rd), fmt.Sprintf("massive:%v", massive))
+					col.sample(func() any { return c })
+					if msg := c07BigCheck(c); msg != "" {
+						violation(t, "C07", "c07b", c, msg)
+					}
+				}
+			}
+		}
+	}
 }
